@@ -207,8 +207,48 @@ def run_faults(acc, job):
                 acc.violation('fault|short-circuit', '"@ or http:" contacted '
                               'the server', {'rule': 'oh'}, True, None,
                               'faults')
-        # https with configured but missing TLS files
+        # https: every combination of the three TLS files being unset,
+        # present or missing - a configured file that is missing must raise
         cur['exc'] = None
+        import itertools as _it
+        w = world.FileWorld()
+        try:
+            for f in ('crt.pem', 'key.pem', 'ca.pem'):
+                w.write(f, 'x')
+            opts3 = ('remote_ssl_client_crt_file',
+                     'remote_ssl_client_key_file', 'remote_ssl_ca_crt_file')
+            files3 = ('crt.pem', 'key.pem', 'ca.pem')
+            for states in _it.product(('unset', 'present', 'missing'),
+                                      repeat=3):
+                if states[1] != 'unset' and states[0] == 'unset':
+                    continue     # a key without a certificate is no use case
+                kw = {'remote_ssl_verify_server_crt': True}
+                for o, f, st in zip(opts3, files3, states):
+                    if st == 'present':
+                        kw[o] = w.path(f)
+                    elif st == 'missing':
+                        kw[o] = w.path('no-such-' + f)
+                enf = enforcer(**kw)
+                world.set_rules(enf, rules)
+                acc.case('faults', True)
+                acc.ev()
+                got = world.decide(enf, 's', {}, {})
+                want_raise = 'missing' in states
+                if want_raise and got[0] != 'exc':
+                    acc.violation('fault|tls-combo|%s' % '-'.join(states),
+                                  'https check with TLS files (crt,key,ca)='
+                                  '%r returned %r instead of raising' %
+                                  (states, got), {'states': list(states)},
+                                  'raises', got, 'faults')
+                if not want_raise and got != ('ok', True):
+                    acc.violation('fault|tls-combo-ok|%s' % '-'.join(states),
+                                  'https check with all configured TLS files '
+                                  'present gave %r' % (got,),
+                                  {'states': list(states)}, True, got,
+                                  'faults')
+                acc.outcome('tls-%s' % ('raises' if want_raise else 'ok'))
+        finally:
+            w.destroy()
         for opt in ('remote_ssl_client_crt_file', 'remote_ssl_client_key_file',
                     'remote_ssl_ca_crt_file'):
             kw = {opt: '/nonexistent/verif-%s.pem' % opt}
